@@ -29,6 +29,36 @@ CHECKS = {
         text="Random histories of insert / re-insert / typed, ANY and unchecked lookup / prune / clock advance (second and sub-second steps around each TTL) run against SharedCache and Cache on a virtual clock; after every lookup the result is judged against the model (never past TTL, reported TTL <= time left, live records returned exactly once, data unchanged) and after every step the stored set equals the model.",
         note="Hooks H1 (virtual clock) and H4 (snapshot) are trusted to be faithful; sub-second remainders are a stated tolerance.",
         ref="DESIGN.md §4 C05"),
+    "C11": dict(
+        level="exploration",
+        technique=PBT + "; grammar-based generation: a denotation is rendered through every optional-field/layout/quoting/escaping variant, parse result compared with the denotation; single-fault corruptions must be rejected",
+        text="A record set over all supported types is rendered to master-file text with independently chosen owner/TTL/class omission and order, $ORIGIN changes, layout noise, parenthesised groups, quoting and escapes; the parsed zone must equal the denotation (TTLs raised to the SOA minimum), and each of 11 single-fault corruptions must make the parser return an error.",
+        note="The renderer (harness/src/ztext.rs) is the trusted statement of RFC 1035 §5 semantics; grammar-ambiguous tokens are excluded (D5, D6).",
+        ref="DESIGN.md §4 C11"),
+    "C12": dict(
+        level="exploration",
+        technique=PBT + "; differential against a set-union model and R-ZONE over the union, in memory and through files/directories on disk",
+        text="1..5 zone files and 0..3 hosts files with shared apexes, differing SOAs, overlapping and wildcard records are composed in memory and through load_zone_configuration on disk; per apex the merged zone equals the set union with the last SOA (exactly one), every question resolves as R-ZONE over the union, hosts entries follow last-file-wins, directories are applied sorted, any bad file yields no configuration.",
+        note="R-ZONE and the union model are trusted; lookups compared only inside scope D1.",
+        ref="DESIGN.md §4 C12"),
+    "C13": dict(
+        level="exploration",
+        technique=PBT + "; round-trip oracle deserialise(serialise(z)) == z on zones from generated text and from the API, and through the shipped ztoz binary twice",
+        text="Zones parsed from generated text with labels over ASCII octets (quotes, backslashes, semicolons, parentheses, blanks, @, *, control characters) and RDATA over all 256 octets, and API-built zones, are serialised and re-parsed (twice); the result must be semantically equal. The ztoz binary is run on the same texts and on its own output.",
+        note="Semantic equality = apex, SOA, sorted multisets of (owner, wildcard?, rdata, ttl); byte equality is not demanded.",
+        ref="DESIGN.md §4 C13"),
+    "C14": dict(
+        level="exploration",
+        technique=PBT + "; model-based: lines folded in order by a reference reading of hosts(5); round trips through text, zone and the htoh/htoz/ztoh binaries",
+        text="Generated hosts files (IPv4/IPv6 in all textual forms, 1..4 names per line, arbitrary blanks, comments after blanks or glued to a field incl. non-ASCII comment text, blank/address-only/%iface lines, duplicate and conflicting lines, single malformed address or name) must parse to exactly the folded model or fail iff faulty; serialise/deserialise identity; the zone conversion has one A/AAAA record with TTL 5 per mapping, resolves each name and converts back.",
+        note="The reference reading of hosts(5) in harness/src/props/c14.rs is trusted; address-only lines with malformed addresses are unspecified and not generated.",
+        ref="DESIGN.md §4 C14"),
+    "C17": dict(
+        level="exploration",
+        technique=PBT + " and coverage-guided fuzzing (libFuzzer targets zone_total / hosts_total in the thorough tier); totality oracle in crash-isolated child processes on 2 MiB stacks",
+        text="Token soup, arbitrary Unicode, grammar-aware mutations of valid zone and hosts files and enumerated very long inputs are fed to both parsers and to load_zone_configuration; they must return (no panic, abort or stack overflow; hang = inconclusive) and accepted values must survive serialise and re-parse.",
+        note="A hang is reported as exit 2 (inconclusive), not as a violation.",
+        ref="DESIGN.md §4 C17"),
     "C15": dict(
         level="exploration",
         technique=PBT + "; stateful model-based testing with an LRU model and structural invariants after every step; OS-thread stress runs for the concurrent clause",
